@@ -41,7 +41,58 @@ WRAPPERS = {
     'CNT': lambda v: NT(a=comment(v, 'arg comment'), b=0),
     'TCL': lambda v: trailing_comment([v], 'trailing'),
     'TCD': lambda v: trailing_comment({'k': v}, 'trailing'),
+    # further kinds (stdlib call-style types, subclasses, user types, tuple keys)
+    'DD': lambda v: collections.defaultdict(list, {'k': v}),
+    'CM': lambda v: collections.ChainMap({'k': v}, {}),
+    'NS': lambda v: __import__('types').SimpleNamespace(a=v, b=1),
+    'EXC': lambda v: ValueError(v, 'msg'),
+    'PART': lambda v: __import__('functools').partial(dict, a=v),
+    'MP': lambda v: __import__('types').MappingProxyType({'k': v}),
+    'CNT': lambda v: NT(a=comment(v, 'arg comment'), b=0),
+    'TK': lambda v: {(1, 'key'): v, (0, 'other'): 0},
+    'LSUB': lambda v: MyList([v]),
+    'DSUB': lambda v: MyDict({'k': v}),
+    'UT': lambda v: UserT(v, key=1),
+    'UTC': lambda v: UserT(comment(v, 'note'), key=1),
+    'DC': lambda v: DataC(v),
+    'FST': lambda v: (frozenset([1]), v),
+    'LTS': lambda v: [({3, 4}, v)],
 }
+
+
+class MyList(list):
+    pass
+
+
+class MyDict(dict):
+    pass
+
+
+class UserT:
+    def __init__(self, *args, **kwargs):
+        self.args, self.kwargs = args, kwargs
+
+
+from prettyprinter import register_pretty as _reg, pretty_call_alt as _pca
+
+
+@_reg(UserT)
+def _pretty_usert(v, ctx):
+    return _pca(ctx, UserT, args=v.args, kwargs=list(v.kwargs.items()))
+
+
+import dataclasses as _dc
+
+
+@_dc.dataclass
+class DataC:
+    payload: object
+    flag: int = 0
+
+
+prettyprinter.install_extras(['dataclasses'])
+EXTRA_FAMILIES = [['DD'], ['CM'], ['NS'], ['EXC'], ['PART'], ['MP'], ['TK'], ['LSUB'], ['DSUB'], ['UT'], ['UTC'], ['DC'], ['FST'], ['LTS'],
+                  ['DD', 'T'], ['NS', 'CL'], ['EXC', 'D'], ['TK', 'L'], ['UTC', 'CL']]
 DEPTH_FAMILIES = [['L'], ['T'], ['D'], ['D3'], ['ST'], ['NT'], ['OD'], ['L', 'D'], ['T2', 'NT', 'L3'], ['CL'], ['CT'], ['CDK'], ['CNT'], ['TCL'], ['TCD'],
                   ['CL', 'D'], ['CDK', 'L'], ['CNT', 'TCL'], ['DQ']]
 
@@ -138,7 +189,8 @@ def run_family(sh, name, make, sizes, cfg, recipe=None):
 
 def cfgs_for(rng, quick):
     allc = [{'width': w, 'sort_dict_keys': s} for w in (1, 20, 79) for s in (False, True)]
-    return rng.sample(allc, 1 if quick else 3)
+    allc += [{'width': 200, 'ribbon_width': 190}, {'width': 79, 'max_seq_len': 3}, {'width': 40, 'depth': 1000, 'sort_dict_keys': True}, {'width': 300, 'indent': 8}]
+    return rng.sample(allc, 1 if quick else 4)
 
 
 def run_shard(sh):
@@ -149,12 +201,16 @@ def run_shard(sh):
     jobs = []
     for recipe in DEPTH_FAMILIES:
         jobs.append(('depth:' + '+'.join(recipe), recipe, [8, 16, 32, 64] if len(recipe) == 1 else [4, 8, 16, 32]))
+    for recipe in EXTRA_FAMILIES:
+        jobs.append(('depth:' + '+'.join(recipe), recipe, [4, 8, 16, 32]))
     for name in length_families():
         jobs.append(('length:' + name, None, [100, 200, 400, 800] if not name.startswith('long-comment') else [50, 100, 200, 400]))
     nrec = 40 if quick else 2000
     for i in range(nrec):
         rng = V.rng_for('c12r', sh.seed, i)
         recipe = [rng.choice([w for w in WRAPPERS if w != 'CDV']) for _ in range(rng.randint(1, 3))]
+        if 'EXC' in recipe and len(recipe) > 1:
+            recipe = [w for w in recipe if w != 'EXC'] or ['EXC']
         jobs.append(('recipe:' + '+'.join(recipe), recipe, [4, 8, 16, 32] if len(recipe) > 1 else [8, 16, 32, 64]))
     # the canonical family of the listed finding (demonstrated, not assumed)
     jobs.append(('depth:CDV', ['CDV'], [4, 8, 16]))
